@@ -259,11 +259,15 @@ def run(ctx):
     ]
     os.remove(src)
     # the watcher's two delivery paths hand over exactly the message the event converts to: the real handleEvents /
-    # handleObsvRequest against the fake node (family alphwatch); C11 reports clause reobs-forwarded-altered and any
+    # handleObsvRequest / handleConfirmedEvents against the fake node (family alphwatch); C11 reports the clauses
+    # forwarded-altered, poll-forwarded-altered, reobs-forwarded-altered (alphwatchcommon.EXTRA_OWNERS) and any
     # model/implementation difference in what was forwarded, everything else there belongs to C08 / C09
     from checks import alphwatchcommon
     keep = {k: ctx.cov.get(k) for k in ("rule", "generator_distribution")}
     work = ctx.work
     alphwatchcommon.run_alphwatch(ctx, "c08")
-    ctx.cov["rule"] = keep["rule"] + " | delivery paths: the C08 generators (poll / pipe / reobs) - forwarded messages compared field by field with the model"
+    ctx.cov["rule"] = keep["rule"] + (" | delivery paths: the C08 generators (poll / pipe / reobs / paths, hconf batches of several blocks handed over out of "
+                                      "sequence order with foreign senders in between) - every forwarded message compared field by field with the event it was "
+                                      "made from and with its own block's header (clauses forwarded-altered, poll-forwarded-altered, reobs-forwarded-altered, "
+                                      "shared with C04)")
     ctx.cov["generator_distribution"] = {"alphutil": keep["generator_distribution"], "alphwatch": ctx.cov.get("generator_distribution")}
